@@ -35,16 +35,19 @@ ASSUMPTIONS = [
     "the tick of a time/key signature is only required to lie between the end of the last sounding entry before the "
     "bar and the start of the next sounding entry (the statement does not fix where inside a rest it is emitted); "
     "their per-bar order and values are exact",
-    "bank select = a controller-0 event on the first note's channel with any value (the statement names no bank); it "
-    "and the program change must come after every earlier note event and before the first note-on they apply to; "
+    "bank select = a controller-0 event on the first note's channel with any value (the statement names no bank), "
+    "anywhere before the first note-on of the track; program change = the last program change on that channel before "
+    "that note-on carries the instrument number (so an implementation may or may not re-send it on every repeat); "
     "further program changes are tolerated when they carry a requested instrument number",
     "the first note of a chord is the container's first (lowest) note",
-    "track name and tempo: at least one event, all such events carry the written value; the first tempo event is at "
-    "tick 0 before the first note; time-signature bytes 3 and 4 (clocks per click, 32nds per quarter) are not judged",
+    "track name and tempo: at least one event, all such events carry the written value (their position is not judged); "
+    "time-signature bytes 3 and 4 (clocks per click, 32nds per quarter) are not judged",
     "an empty NoteContainer in a bar counts as a rest; channel events other than note on/off are not judged, except "
     "the instrument change",
     "MidiTrack.play_Bar / play_Track histories are read as the generalisation of the repeat loops of write_Bar / "
     "write_Track: each call appends its content at the end (rests included) of what was written before",
+    "write_Composition with repeat: each track chunk may repeat its own content end to end (what the library does) or "
+    "the repeats may be aligned on the longest track; either is accepted",
     "which placements a Bar accepts is C13's subject: programs are the reachable states of real Bars and the score "
     "is read off them",
 ]
@@ -104,7 +107,7 @@ def check_bytes(site, data, per_track_timelines, bpm):
             S.count("bars_checked", len(tl.bars))
             S.count("instrument_changes_checked", len(tl.instruments))
             S.count("rest_entries_checked", tl.rest_entries)
-            if len(tls) > 1:
+            if any(t.convention == "up" for t in tls):
                 S.count("tie_tracks_checked")
     return f
 
@@ -137,6 +140,21 @@ def run_program(case):
                 for sc in scores:
                     per_track.append(timelines_for(lambda tl, sc=sc: [tl.play_track(sc) for _ in range(repeat + 1)],
                                                    Z.values_in([sc])))
+                if repeat and len(scores) > 1:
+                    # second acceptable reading of "repeats the whole content": the repeats of all
+                    # tracks are aligned on the longest track
+                    for conv in TL.conventions_needed(Z.values_in(scores)):
+                        lengths = []
+                        for sc in scores:
+                            tl = TL.Timeline(conv)
+                            tl.play_track(sc)
+                            lengths.append(tl.now)
+                        for sc, alts in zip(scores, per_track):
+                            tl = TL.Timeline(conv)
+                            for r in range(repeat + 1):
+                                tl.advance_to(r * max(lengths))
+                                tl.play_track(sc)
+                            alts.append(tl)
             elif api == "track":
                 ok = MFO.write_Track(path, comp.tracks[0], bpm, repeat)
                 sc = scores[0]
@@ -327,6 +345,7 @@ CLAUSES = {
 # ---------------------------------------------------------------------------------------
 BAR_VALUES = [4, 8, 2]
 BAR_MAX = 3
+BAR_EARLIER = []
 
 
 def gen_bars(shard):
@@ -338,6 +357,8 @@ def gen_bars(shard):
     else:
         pats = Z.reachable_bars(Z.SYMBOLS, BAR_VALUES, BAR_MAX, first=(k0, v0))
     for pat in pats:
+        if any(len(pat) <= mx and all(v in vals for (_k, v) in pat) for (vals, mx) in BAR_EARLIER):
+            continue                                    # already enumerated by an earlier pass
         comp = {"tracks": [{"name": None, "instrument": None, "bars": [Z.bar_recipe(pat)]}]}
         yield {"comp": comp, "bpm": 120, "repeat": 0, "apis": ["bar", "track", "composition"]}
         yield {"comp": comp, "bpm": 120, "repeat": 1, "apis": ["bar", "track"]}
@@ -468,7 +489,7 @@ def vlq_ranges(thorough):
 
 
 def explore(ctx):
-    global BAR_VALUES, BAR_MAX, DEV_DEPTH, DEV_DIMS, STANDALONE_CHANNELS
+    global BAR_VALUES, BAR_MAX, BAR_EARLIER, DEV_DEPTH, DEV_DIMS, STANDALONE_CHANNELS
     thorough = not ctx.quick
     if ctx.want("vlq"):
         ranges = vlq_ranges(thorough)
@@ -484,10 +505,10 @@ def explore(ctx):
     if ctx.want("bars"):
         passes = [([4, 8, 2], ctx.pick(3, 4))]
         if thorough:
-            passes.append(([4, 8, 2, "4.", 6, 20, 64], 3))
+            passes.append(([4, 8, 2, "4.", 6, 20, 64, 10], 3))
         ctx.bound("bars", [{"symbols": Z.SYMBOLS, "values": v, "max_entries": m} for v, m in passes])
-        for vals, mx in passes:
-            BAR_VALUES, BAR_MAX = vals, mx
+        for i, (vals, mx) in enumerate(passes):
+            BAR_VALUES, BAR_MAX, BAR_EARLIER = vals, mx, passes[:i]
             ctx.product("bars", [("", 0)] + [(k, v) for k in Z.SYMBOLS for v in vals], gen_bars)
     if ctx.want("tracks"):
         ctx.bound("tracks", "1..3 bars from the 12-pattern zoo x {no instrument, MIDI 13} x repeat {0,1}")
